@@ -21,14 +21,18 @@ type storeProfile struct {
 	pObserve             int
 	pFork                int // % chance that a saved round is executed again at the same version with other transactions
 	pBump                int // % chance of a SetVersion bump of the block trie inside a round
+	pSaveFault           int // % chance of a SaveChanges fault-path op before the save
 	pSync                int // % chance that a round starts with a MergeDB from a donor store
 }
 
 var (
-	profC03 = storeProfile{name: "c03", minRounds: 1, maxRounds: 3, maxTxns: 4, pDel: 35, pPrune: 10, pCrashSave: 5, pRecreate: 15, pObserve: 60, pFork: 5, pBump: 8, pSync: 6}
-	profC04 = storeProfile{name: "c04", minRounds: 2, maxRounds: 5, maxTxns: 3, pDel: 35, pPrune: 15, pCrashSave: 40, pRecreate: 20, pObserve: 25, pFork: 8, pBump: 25, pSync: 20}
-	profC05 = storeProfile{name: "c05", minRounds: 3, maxRounds: 6, maxTxns: 3, pDel: 45, pPrune: 60, pCrashSave: 10, pRecreate: 50, pObserve: 25, pFork: 25, pBump: 8, pSync: 6}
+	profC03 = storeProfile{name: "c03", minRounds: 1, maxRounds: 3, maxTxns: 4, pDel: 35, pPrune: 10, pCrashSave: 5, pRecreate: 15, pObserve: 60, pFork: 5, pBump: 8, pSync: 6, pSaveFault: 3}
+	profC04 = storeProfile{name: "c04", minRounds: 2, maxRounds: 5, maxTxns: 3, pDel: 35, pPrune: 15, pCrashSave: 40, pRecreate: 20, pObserve: 25, pFork: 8, pBump: 25, pSync: 20, pSaveFault: 25}
+	profC05 = storeProfile{name: "c05", minRounds: 3, maxRounds: 6, maxTxns: 3, pDel: 45, pPrune: 60, pCrashSave: 10, pRecreate: 50, pObserve: 25, pFork: 25, pBump: 8, pSync: 6, pSaveFault: 3}
 )
+
+// genSaveFail switches the generation of `save-fail` ops on (see round()).
+const genSaveFail = false
 
 type gTrie struct {
 	id, parent int
@@ -202,17 +206,42 @@ func storeSameContent(a, b map[string]string) bool {
 	return true
 }
 
-func (g *storeGen) merge(t *gTrie) {
+func (g *storeGen) mergeFlags(keep bool) string {
+	fl := ""
+	if g.r.Intn(100) < 40 {
+		fl += " raw" // through the exported MergeChanges(child.GetChanges())
+	}
+	if keep {
+		fl += " keep"
+	}
+	return fl
+}
+
+func (g *storeGen) merge(t *gTrie) { g.mergeX(t, false) }
+
+// mergeX: with keep the child stays open after an accepted merge (it goes on and is merged again)
+func (g *storeGen) mergeX(t *gTrie, keep bool) {
 	p := g.tries[t.parent]
-	g.emit("merge %d", t.id)
+	g.emit("merge %d%s", t.id, g.mergeFlags(keep))
 	if !t.stale {
 		if !storeSameContent(p.content, t.content) {
-			g.markStale(p.id) // the other children of p are stale now (t is dropped below)
+			g.markStale(p.id) // the other children of p are stale now
 		}
-		p.content = t.content
-		g.drop(t.id)
+		p.content = map[string]string{}
+		for k, v := range t.content {
+			p.content[k] = v
+		}
+		if keep {
+			t.stale = true // a second merge of this child starts from the parent's OLD root: rejected
+		} else {
+			g.drop(t.id)
+		}
+		return
 	}
-	// a stale merge is rejected; the trie stays open until discarded
+	// a stale merge is rejected; the trie stays open until discarded; sometimes it is retried
+	if g.r.Intn(100) < 30 {
+		g.emit("merge %d%s", t.id, g.mergeFlags(false))
+	}
 }
 
 func (g *storeGen) discard(t *gTrie) {
@@ -247,9 +276,22 @@ func (g *storeGen) txn() {
 		}
 		g.maybeObserve(c.id)
 		g.maybeObserve(0)
-		if g.r.Intn(100) < 65 {
+		switch y := g.r.Intn(100); {
+		case y < 15:
+			// the child keeps working after its merge and is merged again (rejected: it started from the old root)
+			g.mergeX(c, true)
+			if _, open := g.tries[c.id]; open {
+				g.someOps(c, 3)
+				g.maybeObserve(c.id)
+				g.mergeX(c, false)
+				g.maybeObserve(0)
+				if _, open := g.tries[c.id]; open {
+					g.discard(c)
+				}
+			}
+		case y < 70:
 			g.merge(c)
-		} else {
+		default:
 			g.discard(c)
 		}
 	case x < 80: // concurrent siblings opened at the same parent root
@@ -383,6 +425,19 @@ func (g *storeGen) round(fork bool) {
 		}
 	}
 	g.maybeObserve(0)
+	if g.r.Intn(100) < g.prof.pSaveFault {
+		// fault paths of SaveChanges: a failing batch write, a save that times out while its batch is stalled
+		// (`save-fail` — a failing batch write must be reported every time — is implemented but not generated while the
+		// errC/doneC select race of SaveChanges is an undecided finding candidate: set genSaveFail to switch it on)
+		switch x := g.r.Intn(3); {
+		case x == 0 && genSaveFail:
+			g.emit("save-fail")
+		case x == 1:
+			g.emit("save-timeout a")
+		default:
+			g.emit("save-timeout b")
+		}
+	}
 	if g.r.Intn(100) < g.prof.pCrashSave {
 		g.emit("crash-save %d", g.r.Intn(3))
 	} else {
